@@ -553,6 +553,7 @@ def oracle(run, deep):
                       "theorems": ["C16_keywords"]})
     run.note("oracle: %d values round-tripped in three quote styles" % nchecked)
     variable_names(run, rng)
+    word_identity(run, rng)
     overlapping_literals(run)
     eval_route_oracle(run, deep)
     multi_engine_oracle(run, deep)
@@ -572,6 +573,46 @@ def variable_names(run, rng):
             run.fail("violation", "a variable reference does not name the variable it spells",
                      {"input": lc.compress(t), "input_repr": lc.printable(t), "observed": [str(x)[:80] for x in o],
                       "required": "GetContextValue of the constant %s" % lc.printable(t.strip(" ")), "theorems": ["C16_variable_name"]})
+
+
+# ---------------------------------------------------------------- words denote their own text, code point for code point
+_UNSTABLE = None
+
+
+def unstable_word_chars():
+    """identifier characters that some Unicode normal form or case mapping changes (all planes)"""
+    global _UNSTABLE
+    if _UNSTABLE is None:
+        import re
+        import sys
+        start = re.compile(r"[^\W\d]")
+        out = []
+        for cp in range(0x80, sys.maxunicode + 1):
+            c = chr(cp)
+            if not start.match(c):
+                continue
+            if any(unicodedata.normalize(f, c) != c for f in ("NFC", "NFD", "NFKC", "NFKD")) or c.lower() != c or c.upper() != c or c.casefold() != c:
+                out.append(cp)
+        _UNSTABLE = out
+    return _UNSTABLE
+
+
+def word_identity(run, rng):
+    """A word that is not true/false/null or an operator denotes exactly its own text: no normalisation, no case folding."""
+    cps = unstable_word_chars()
+    pick = cps if not run.quick else cps[::37] + rng.sample(cps, 300) + [0x2126, 0x212a, 0x212b, 0x1100, 0xfb01, 0x130, 0xdf]
+    reported = False
+    for cp in dict.fromkeys(pick):
+        c = chr(cp)
+        for w in (c, c + "x", "x" + c, c + c, "ᄀ" + "ᅡ" if cp == 0x1100 else "a" + c + "1"):
+            o = observe(w)
+            want = ("val", "KEYWORD_STRING", ("text", w))
+            run.count("oracle:word:" + ("ok" if o == want else "fail"))
+            if o != want and not reported:
+                reported = True
+                run.fail("violation", "a word does not denote its own text",
+                         {"input": lc.compress(w), "input_repr": lc.printable(w), "observed": [str(x)[:80] for x in o],
+                          "required": "KeywordConstant with exactly the code points written", "theorems": ["C16_keywords"]})
 
 
 # ---------------------------------------------------------------- the yaql.eval() route over histories
